@@ -64,8 +64,12 @@ package xml
 //@   ensures[S]  l.r.start == l.r.pos
 //@   loop 1 decreases len(l.r.buf) - l.r.pos
 
+// a tag name ends at XML white space (S ::= #x20 | #x9 | #xD | #xA), at the tag's closing delimiter, or at the terminator
+//@ pred xmlNameEnd(c, c1) := c == ' ' || c == '\t' || c == '\n' || c == '\r' || c == '>' || c == 0 || ((c == '/' || c == '?') && c1 == '>')
 //@ func Lexer.shiftStartTag
 //@   preserves[S] scanInv(l)
+//@   ensures[F,C11] @name-extent: forall(k, old(l.r.pos), l.r.pos, !xmlNameEnd(l.r.buf[k], l.r.buf[k+1])) && xmlNameEnd(l.r.buf[l.r.pos], l.r.buf[l.r.pos+1])
+//@   loop 1 invariant[F] forall(k, old(l.r.pos), l.r.pos, !xmlNameEnd(l.r.buf[k], l.r.buf[k+1]))
 //@   ensures[F,C11] @no-nul: forall(k, old(l.r.pos), l.r.pos, l.r.buf[k] != 0)
 //@   loop * candidate[F] forall(k, old(l.r.pos), l.r.pos, l.r.buf[k] != 0)
 //@   ensures[T]  sameMem(result, l.r.buf[old(l.r.start):l.r.pos]) && cap(result) == len(result)
